@@ -287,6 +287,9 @@ fn check_one(ctx: &mut Ctx, db: &SimpleParserDatabase, src: &str, cfg: &Formatte
             "code-line"
         };
         let width_class = if cfg.max_line_length < 20 { ":width<20" } else { "" };
+        // inputs made by inserting a comment at an unusual place form their own class of findings
+        let inserted = origin().get("replacement").and_then(|r| r.as_str()).map(|r| r.contains("//")).unwrap_or(false);
+        let width_class = format!("{width_class}{}", if inserted && class != "space-before-comment" { ":comment-inserted" } else { "" });
         ctx.violation(format!("not-idempotent:{kind}:{class}{width_class}"), format!("f(f(t)) != f(t) near {:?} vs {:?}", ctxt(&o1), ctxt(&o2)), case());
     }
     match canon {
